@@ -43,9 +43,14 @@ def frame_spec(draw, fmt):
     m = draw(st.integers(1, 3))
     kinds = ('int64', 'float64', '<U3', 'bool') if fmt != 'zip_pickle' else ('int64', 'float64', '<U3', 'bool', 'object', 'M8[D]')
     cols = []
+    # one frame in five is homogeneous in a narrow numeric type (a single 2-D block of NumPy scalars of that type)
+    narrow = draw(st.sampled_from([None, None, 'int8', None, 'float32', None, 'uint8', None, 'int16', None]))
     for j in range(m):
         k = draw(st.sampled_from(kinds))
-        if k == '<U3':
+        if narrow:
+            pool = [0, 1, 2, 100, 7] if narrow == 'uint8' else ([0.5, -1.25, 3.0, 2.75] if narrow == 'float32' else [0, -1, 2, 100, -7])
+            cols.append(np.array(draw(st.lists(st.sampled_from(pool), min_size=n, max_size=n)), dtype=narrow))
+        elif k == '<U3':
             vals = draw(st.lists(st.sampled_from(['a', 'bb', 'c d', 'x']), min_size=n, max_size=n))
             cols.append(np.array(vals, dtype='<U3'))
         elif k == 'float64':
